@@ -15,8 +15,9 @@ MATCHERS = {}
 def regen_leaves():
     """CmGen/Leaves.lean: the numeric functions of the source as they read now (the `source_*` theorems of
     CmProps/C13tie.lean identify them with the model)"""
-    from translate import leaves, convstr
+    from translate import leaves, convstr, api
     leaves.generate()
+    api.generate()              # (CmProps/C13cap.lean states the data flow of the compositing context about the image of ColorPair.__init__)
     convstr.generate()          # CmGen/ConvStr.lean: rgba_to_rgb and hsla_to_rgb (string and sequence input) as they read now (CmProps/C13conv.lean)
 LABEL = {"AAA": "Very Readable", "AA": "Readable", "FAIL": "Not Readable"}
 ALPHAS = ["0", "1", "0.0", "1.0", "0.5", "0.25", "0.75", "0.000001", "0.999999", "0.001", "0.999", "0.1", "0.9", ".5", ".25", ".9", "1.", "0."]
